@@ -73,6 +73,7 @@ class ResTracker(Tracker):
         self.returns_owned = False
         self.overwrites = []
         self.double_release = []
+        self.unchecked = []
         self.canon = Canon(fn)
         # tracked locals
         self.ptr_locals = {}
@@ -351,8 +352,29 @@ class ResTracker(Tracker):
         return (vars_, frozenset(rd.items()), ints, atoms)
 
     # --- transfer ----------------------------------------------------------
+    def _deref_check(self, st, n, ctx):
+        """dereference of a pointer that still holds an untested allocation result"""
+        base = None
+        if n.k == "MemberExpr" and n.get("arrow"):
+            base = n.kids[0].strip()
+        elif n.k == "ArraySubscriptExpr":
+            base = n.kids[0].strip()
+        elif n.k == "UnaryOperator" and n.op == "*":
+            base = n.kids[0].strip()
+        if base is None or base.k != "DeclRefExpr" or base.refdecl not in self.ptr_locals:
+            return
+        r = dict(st[0]).get(base.refdecl)
+        if r in (None, "N"):
+            return
+        stt = dict(st[1]).get(r)
+        s0 = stt[0] if isinstance(stt, tuple) else stt
+        if s0 == "M" and not any(u[0] == r for u in self.unchecked):
+            self.unchecked.append((r, self.ptr_locals.get(base.refdecl), n, ctx.trace()))
+
     def step(self, st, n, ctx):
         k = n.k
+        if k in ("MemberExpr", "ArraySubscriptExpr", "UnaryOperator"):
+            self._deref_check(st, n, ctx)
         if k == "VarDecl":
             d = n.get("decl")
             if d in self.ptr_locals:
@@ -430,6 +452,14 @@ class ResTracker(Tracker):
     def _call(self, st, n, ctx):
         nm = n.callee
         args = n.args()
+        if nm in ("memset", "memcpy", "memmove", "strcpy", "strcat", "sprintf") and args:
+            a0 = args[0].strip()
+            if a0.k == "DeclRefExpr" and a0.refdecl in self.ptr_locals:
+                r = dict(st[0]).get(a0.refdecl)
+                stt = dict(st[1]).get(r) if r not in (None, "N") else None
+                s0 = stt[0] if isinstance(stt, tuple) else stt
+                if s0 == "M" and not any(u[0] == r for u in self.unchecked):
+                    self.unchecked.append((r, self.ptr_locals.get(a0.refdecl), n, ctx.trace()))
         g = self.P.resolve_call(n, self.fn) if nm else None
         gs = self.summ.get(g.key()) if g is not None else None
         if nm in ADDR_RELEASE and len(args) > ADDR_RELEASE[nm]:
